@@ -1,28 +1,48 @@
 """C16 — loads-analysis extrema, envelopes and uncertainty factors (DESIGN.md section 6/C16).
 
-Tie: correspondence between the Lean models (lean/PyYetiVerif/Model/Extrema.lean and
-Model/ApplyUf.lean, run through Drivers/C16.lean) and the real code imported from the working tree:
+Tie: correspondence between the Lean models (lean/PyYetiVerif/Model/Extrema.lean, ExtremaPsd.lean, ExtremaMerge.lean,
+ApplyUf.lean, ApplyUfFull.lean, run through Drivers/C16.lean) and the real code imported from the working tree:
 
   maxmin        cla.maxmin on random matrices (ties, NaN, all-NaN rows, bad x length)      exact
   ext2 / ext1   cla.extrema call histories, two- and one-column, every prefix compared,
                 ext_x present/absent, str/list labels, casenum record (permuted)           exact
   time / frf    a harness-built toy event through DR_Event.prepare_results and
                 DR_Results.time_data_recovery / frf_data_recovery (2-6 cases, any label and
-                j order, duplicate labels, stored histories, SRS envelopes)                exact
+                j order, EVERY order of the cases for a subset, duplicate labels, stored
+                histories, SRS envelopes with slots filled out of order)                   exact
+  psd           DR_Results.solvepsd + psd_data_recovery on a toy event (2-4 cases, 1-3 forces,
+                2-6 rows, real / complex unit responses, zero forces trimmed or not,
+                frequency mismatch, duplicate labels, permuted j, every case order for a
+                subset): accumulated PSD, rms, peak, apparent frequency at Float (1e-12);
+                the compare-and-move part on the implementation's own peaks              numeric + exact
   form          DR_Results.merge + form_extreme, flat and nested, all doappend settings,
                 case_order, SRS envelopes                                                  exact
+  addmm         DR_Results.add_maxmin events (abscissae present / absent, str / list labels),
+                merge, form_extreme twice (stale 'extreme' deleted)                        exact
+  merge         DR_Results.merge key bookkeeping: base / nested / enveloped results, rename_dict,
+                duplicate event names refused                                              exact
+  calc-ext      DR_Results.calc_ext on crafted per-case columns (NaN-propagating numpy max /
+                argmax, labels, ext_x reset, SRS envelope)                                 exact
+  stat-ext      DR_Results.calc_stat_ext (mean +/- k sigma) at Float                        numeric (1e-12)
   uf            DR_Event.apply_uf / cla.apply_uf with vector m, b, k (m None allowed), rb /
                 rf modes, real and complex solutions, shared / fresh `save`                numeric
+  uf-full       the same with 2-D k (symmetric or not), m None / vector / matrix, b vector /
+                matrix, C- and Fortran-ordered caller matrices, coupling entries between the
+                partitions, caller's matrices unchanged; Lean model at Float, once with the
+                implementation's own factorisation (lu_solve(lup, I)) as the inverse and once
+                with the inverse the driver computes from k[ee] by Gauss-Jordan            numeric
 
 Exactness: everything the extrema code does to a value is compare / negate / move, so every double
 is sent to the Int model as its order-preserving, odd-symmetric integer key (IEEE bit pattern with
-the sign folded); no rounding is involved.  apply_uf runs at Rat in the model and is compared with
-|impl - model| <= 1e-9 * scale.
+the sign folded); no rounding is involved.  Diagonal apply_uf runs at Rat in the model and is compared with
+|impl - model| <= 1e-9 * scale; full apply_uf, PSD numerics and calc_stat_ext run the same polymorphic
+definitions at Float (doubles travel as bit patterns).
 
 The model-free oracle (`search`) restates the property on the public API: brute-force maxima /
 minima over the inputs, labels and abscissae of an attaining case, order independence of values,
-envelope of parts, the documented apply_uf formulas (also for full matrices, via numpy.linalg.solve)
-and cache transparency.
+envelope of parts, idempotence of form_extreme, calc_ext agreement, the PSD sum over the forces /
+trapezoid rms / linearity / force-order independence, merge refusals, the documented apply_uf formulas
+(also for full matrices, via numpy.linalg.solve) and cache transparency.
 """
 import copy
 import itertools
@@ -36,7 +56,8 @@ import numpy as np
 from runner import Infra
 
 ID = "C16"
-LEAN_MODULES = ["PyYetiVerif.Props.C16", "PyYetiVerif.Audit.C16"]
+LEAN_MODULES = ["PyYetiVerif.Props.C16", "PyYetiVerif.Props.C16Full", "PyYetiVerif.Props.C16FullRoutine", "PyYetiVerif.Props.C16Pipe",
+                "PyYetiVerif.Props.C16Psd", "PyYetiVerif.Audit.C16"]
 AUDIT_FILE = "PyYetiVerif/Audit/C16.lean"
 THEOREMS = [
     "PyYetiVerif.C16." + n
@@ -45,41 +66,65 @@ THEOREMS = [
         "time_recovery_is_global_extreme "
         "srs_env_is_max srs_env_order_independent srs_env_form percase_columns "
         "ext_is_fold_absmax_onecol onecol_broadcast_counterexample uf_split uf_unit uf_scaling "
-        "cache_transparent"
+        "cache_transparent "
+        "uf_split_full uf_split_full_routine uf_scaling_full uf_unit_full cache_transparent_full cache_transparent_blocks "
+        "uf_scaling_full_routine uf_unit_full_routine "
+        "frf_recovery_is_abs_extreme merge_of_disjoint_case_sets_is_one_pass merge_refuses_duplicates "
+        "store_refuses_duplicates calc_ext_is_fold_max stat_ext_sanity "
+        "psd_recovery_is_sum_over_forces psd_row_is_sum_over_forces rms_is_trapz_sqrt peak_is_factor_times_rms "
+        "meansquare_is_linear psd_recovery_is_peak_extreme"
     ).split()
 ]
 TRUSTED = [
-    "correspondence harness harness/props/c16.py (exact on order keys of doubles; 1e-9 relative for apply_uf)",
+    "correspondence harness harness/props/c16.py (exact on order keys of doubles; 1e-9 relative for apply_uf; 1e-12 for PSD numerics and calc_stat_ext)",
     "numpy vectorisation over rows: the model is per row, every row of the implementation's tables is compared",
-    "numpy kernels nanargmax/nanargmin/fmax/abs and fancy indexing behave as modelled (re-measured by the maxmin/ext streams)",
+    "numpy kernels nanargmax/nanargmin/fmax/abs/max/argmax/mean/std and fancy indexing behave as modelled (re-measured by the streams)",
     "pyyeti.srs.srs / srs_frf produce the per-case spectra; only their storage and envelope are in scope",
-    "scipy.linalg.lu_factor/lu_solve for full-matrix apply_uf: not modelled in Lean, checked by the oracle against numpy.linalg.solve",
+    "scipy.linalg.lu_factor/lu_solve: enter the model as a matrix (the factorisation applied to the identity); that this matrix "
+    "inverts k[ee] is re-measured on every run by the `gauss` variant of the uf-full stream (the driver inverts k[ee] itself)",
+    "IEEE double arithmetic of Lean's Float for the numeric streams (uf-full, psd, stat-ext)",
+    "the toy solver handed to solvepsd (d = G * genforce) stands for pyyeti.ode.SolveUnc.fsolve; abs(resp)**2 is modelled as re^2 + im^2",
 ]
 RULE = (
     "seeded random call histories: 1-4 rows, 1-6 calls, values from small integer alphabets (ties frequent), "
     "halves and wide doubles, NaN density 0/15/50 %, abscissae present or absent per history, labels as one "
     "string or one per row, casenum absent / in order / permuted; toy events with 2-6 cases in random label "
-    "and j order; form_extreme over 2-5 events flat or in 2-3 groups with doappend 0-3; apply_uf with 1-6 "
-    "modes, 0-2 rigid-body and 0-2 residual-flexibility modes, 1-4 factor tuples. One case = one history / "
-    "event / structure compared on all rows and all prefixes; non-trivial = at least two calls and at least one "
-    "replacement after the first call (extrema), at least one non-rigid mode (apply_uf); distinct by the "
-    "canonical input."
+    "and j order plus every order of the cases for a subset; PSD toy events with 2-4 cases, 1-3 forces, 2-6 rows, "
+    "3-7 frequencies on a dyadic grid, integer force PSDs and integer (complex) unit responses; form_extreme over 2-5 "
+    "events flat or in 2-3 groups with doappend 0-3; add_maxmin events; merge name lists with repeats and renames; "
+    "apply_uf with 1-6 modes, 0-2 rigid-body and 0-2 residual-flexibility modes, 1-4 factor tuples, vector and full "
+    "(symmetric or not, C / Fortran ordered) matrices. One case = one history / event / structure compared on all rows "
+    "and all prefixes; non-trivial = at least two calls and at least one replacement after the first call (extrema), "
+    "at least one non-rigid mode (apply_uf), an accepted event (recovery streams); distinct by the canonical input."
 )
 ASSUMPTIONS = [
     "within one extrema history mm.ext_x is either always given or never (DR_Results always gives it)",
     "form_extreme parts share the same row labels (the label-merging expansion path is not exercised)",
-    "apply_uf: stiffness of every non-rigid-body mode is non-zero; all calls sharing a save dict use the same sol, m, b, k, nrb, rfmodes",
-    "psd_data_recovery is not driven (its peak values come from floating-point sqrt; its bookkeeping is the same extrema/_store_maxmin path)",
+    "apply_uf: stiffness of every non-rigid-body mode is non-zero / k[ee] and k[rf, rf] are invertible; all calls sharing a "
+    "save dict use the same sol, m, b, k, nrb, rfmodes; rfmodes index modes at or above nrb",
+    "PSD recovery: every case has at least one non-zero force PSD (with all forces zero and allow_force_trimming the code "
+    "raises TypeError in _calc_rms); solvepsd and psd_data_recovery are called alternately per case (as documented); "
+    "dosrs=False (srs.vrs of the response PSD is out of scope); uncertainty factors through frf_apply_uf with unit factors",
+    "calc_stat_ext: at least two cases (ddof=1)",
 ]
 PARTIAL = (
-    "full (2-D) modal matrices in apply_uf are covered by the model-free oracle only (no Lean model of lu_solve); "
-    "the frf pipeline (frfRow) is modelled and correspondence-checked but has no separate theorem (its maximum column is "
-    "the time pipeline on |resp|, its minimum is the negated maximum); psd_data_recovery not driven"
+    "full-matrix apply_uf: uf_scaling_full / uf_unit_full are about the partition (block) arithmetic with the factorisation as "
+    "data; the whole routine including the partition layer (flippv / np.ix_ extraction, in-place scalings, scatter into n rows) "
+    "is proved for rfmodes = None and any nrb < n (uf_*_full_routine); WITH residual-flexibility modes the extraction and scatter "
+    "are executable model code tied by the uf-full stream but have no theorem of their own; delete_extreme (recursion over "
+    "nested results) is covered by the form-twice check and the oracle only; calc_stat_ext has a model, a numeric stream and "
+    "only a sanity theorem (k = 0, equal cases); the SRS of the response PSD (srs.vrs, dosrs=True in psd_data_recovery) and "
+    "solvepsd(use_apply_uf=True) are not driven"
 )
 MANIFEST = {
     "level_text": "proof",
-    "level_note": "Lean theorems about the exact per-row model of extrema/maxmin/envelopes/per-case records and the "
-                  "diagonal apply_uf with explicit cache; tie by exact correspondence on the real code",
+    "level_note": "Lean theorems about the exact per-row model of extrema/maxmin/envelopes/per-case records, the time, frf and "
+                  "PSD recovery pipelines (PSD = sum over forces, rms = sqrt of the trapezoid area, peaks mirrored), merge / "
+                  "_store_maxmin refusals, calc_ext, and apply_uf with its explicit cache for vector and full modal matrices "
+                  "(full: block arithmetic with the stiffness factorisation as data, Kee * KeeInv = 1, and the whole routine "
+                  "without residual-flexibility modes); tie by exact / numeric correspondence on the real code; the partition "
+                  "extraction of the full path with residual-flexibility modes, calc_stat_ext and delete_extreme are tied / "
+                  "measured only",
     "technique": "Lean 4 proof + differential correspondence + model-free oracle",
 }
 
@@ -177,9 +222,12 @@ def run_hist(h, order=None):
         setattr(cur, nm, np.full((r, n), NAN))
     snaps = []
     calls = h["calls"] if order is None else [h["calls"][i] for i in order]
+    cur.inputs = []  # what was handed in (object, labels) -- must still be what it was afterwards
     for c in calls:
         mm = SimpleNamespace(ext=arr(c["ext"]), ext_x=None if c["ext_x"] is None else arr(c["ext_x"]))
-        cla.extrema(cur, mm, copy.deepcopy(c["maxcase"]), copy.deepcopy(c["mincase"]), c["casenum"])
+        mxc, mnc = copy.deepcopy(c["maxcase"]), copy.deepcopy(c["mincase"])
+        cla.extrema(cur, mm, mxc, mnc, c["casenum"])
+        cur.inputs.append((c, mm, mxc, mnc))
         snaps.append((cur.ext.copy(), None if cur.ext_x is None else cur.ext_x.copy(),
                       list(cur.maxcase), list(cur.mincase)))
     return snaps, cur
@@ -514,6 +562,9 @@ def gen_form(rng):
             "case_order": order}
 
 
+_SNAPS = []  # snapshots of the parts of the last build_form call, taken before merge / form_extreme
+
+
 def build_form(spec, perm=None, regroup=None):
     from pyyeti import cla
 
@@ -524,6 +575,7 @@ def build_form(spec, perm=None, regroup=None):
             raise Infra("toy event refused: %s" % err)
         evs.append(res)
     groups = spec["groups"] if regroup is None else regroup
+    _SNAPS[:] = [_snapshot(res["cat"]) for res in evs]
     with warnings.catch_warnings():
         warnings.simplefilter("ignore")
         top = cla.DR_Results()
@@ -550,14 +602,15 @@ def _part_requests(parts, names, use_ext, doappend, rows, srs_q):
         segs = []
         for nm, p in zip(names, parts):
             segs.append("%s %s %s %s %s %s" % (
-                ftok(p.ext[i, 0]), ftok(p.ext_x[i, 0]), _mk(nm, p.maxcase[i], use_ext, doappend),
-                ftok(p.ext[i, 1]), ftok(p.ext_x[i, 1]), _mk(nm, p.mincase[i], use_ext, doappend)))
+                ftok(p.ext[i, 0]), _px(p, i, 0), _mk(nm, p.maxcase[i], use_ext, doappend),
+                ftok(p.ext[i, 1]), _px(p, i, 1), _mk(nm, p.mincase[i], use_ext, doappend)))
         reqs.append("ext2 ; " + " ; ".join(segs))
     n = len(parts)
     for i in range(rows):
         for col, fld in ((0, "ext"), (1, "ext"), (0, "ext_x"), (1, "ext_x")):
-            reqs.append("rec %d ; " % n + " ; ".join("%d %s" % (j, ftok(getattr(p, fld)[i, col]))
-                                                       for j, p in enumerate(parts)))
+            reqs.append("rec %d ; " % n + " ; ".join(
+                "%d %s" % (j, "nan" if getattr(p, fld) is None else ftok(getattr(p, fld)[i, col]))
+                for j, p in enumerate(parts)))
     for q in srs_q:
         reqs += env_requests(np.stack([p.srs.ext[q] for p in parts]), form=True)
     return reqs
@@ -577,8 +630,8 @@ def _mk(case, lower, use_ext, doappend):
 def _level_replies(ext, rows, srs_q):
     out = []
     for i in range(rows):
-        out.append("%s %s %s %s %s %s" % (ftok(ext.ext[i, 0]), ftok(ext.ext_x[i, 0]), ext.maxcase[i],
-                                          ftok(ext.ext[i, 1]), ftok(ext.ext_x[i, 1]), ext.mincase[i]))
+        out.append("%s %s %s %s %s %s" % (ftok(ext.ext[i, 0]), _px(ext, i, 0), ext.maxcase[i],
+                                          ftok(ext.ext[i, 1]), _px(ext, i, 1), ext.mincase[i]))
     for i in range(rows):
         for nm in ("mx", "mn", "mx_x", "mn_x"):
             out.append(" ".join(ftok(v) for v in getattr(ext, nm)[i]))
@@ -644,24 +697,47 @@ def gen_uf(rng, full=False):
     spec = {"kind": "uf", "n": n, "nrb": nrb, "rf": rf, "rfmode": rfmode, "m": m, "b": b, "k": k,
             "sol": sol, "soli": soli, "ufs": ufs, "pg": pg, "full": False}
     if full:
-        # full symmetric matrices: elastic and rf blocks decoupled in k (as the routine assumes)
+        # full matrices: k 2-D (symmetric or not; the elastic and rf partitions are what the routine uses), m absent /
+        # vector / matrix, b vector / matrix; optionally non-zero coupling entries between the partitions (ignored by
+        # the routine and by the documented formula alike)
         g = np.random.default_rng(rng.randrange(1 << 30))
-        def spd(idx):
+
+        def spd(idx, skew=False):
             a = g.integers(-2, 3, (len(idx), len(idx))).astype(float)
-            return a @ a.T + 3 * np.eye(len(idx))
+            out = a @ a.T + 3 * np.eye(len(idx))
+            if skew:
+                t = g.integers(-1, 2, (len(idx), len(idx))).astype(float)
+                out = out + (t - t.T)
+            return out
+
         el = [i for i in nonrb if i not in rf]
+        nonsym = rng.random() < 0.5
+        mform = rng.choice(["none", "vec", "mat", "mat"])
+        bform = rng.choice(["vec", "mat", "mat"])
         K = np.zeros((n, n))
         for idx in (el, rf):
             if idx:
-                K[np.ix_(idx, idx)] = spd(idx)
+                K[np.ix_(idx, idx)] = spd(idx, nonsym)
         M = np.eye(n)
         B = np.zeros((n, n))
-        if el:
+        if mform == "vec":
+            M = np.diag(g.integers(1, 6, n).astype(float))
+        elif mform == "mat" and el:
             M[np.ix_(el, el)] = spd(el)
-            B[np.ix_(el, el)] = spd(el) / 4
+        if bform == "vec":
+            B = np.diag(g.integers(0, 5, n) / 2.0)
+        elif el:
+            B[np.ix_(el, el)] = spd(el, nonsym) / 4
+        coupled = bool(el and rf and rng.random() < 0.3)
+        if coupled:
+            for A, ok in ((K, True), (M, mform == "mat"), (B, bform == "mat")):
+                if ok:
+                    A[np.ix_(el, rf)] = g.integers(-2, 3, (len(el), len(rf)))
+                    A[np.ix_(rf, el)] = g.integers(-2, 3, (len(rf), len(el)))
         # memory layout of the caller's matrices: C order, Fortran order (what op4/MATLAB readers and LAPACK-based
         # routines return) -- a routine that lets LAPACK work in place behaves differently on the two
-        spec.update(full=True, K=K.tolist(), M=M.tolist(), B=B.tolist(), layout=rng.choice(["C", "F", "F"]))
+        spec.update(full=True, K=K.tolist(), M=M.tolist(), B=B.tolist(), layout=rng.choice(["C", "F", "F"]),
+                    mform=mform, bform=bform, coupled=coupled, nonsym=nonsym)
     return json_fr(spec)
 
 
@@ -693,6 +769,13 @@ def uf_arrays(spec):
         m, b, k = np.array(spec["M"]), np.array(spec["B"]), np.array(spec["K"])
         if spec.get("layout") == "F":
             m, b, k = np.asfortranarray(m), np.asfortranarray(b), np.asfortranarray(k)
+        mform, bform = spec.get("mform", "mat"), spec.get("bform", "mat")
+        if mform == "none":
+            m = None
+        elif mform == "vec":
+            m = np.diag(m).copy()
+        if bform == "vec":
+            b = np.diag(b).copy()
     else:
         m = None if spec["m"] is None else np.array([float(fr(v)) for v in spec["m"]])
         b = np.array([float(fr(v)) for v in spec["b"]])
@@ -744,12 +827,495 @@ def uf_impl_all(spec):
     so = DR.apply_uf(sol, m, b, k, spec["nrb"], rf)
     res["event"] = [pack(so[u]) for u in ufs]
     save = {}
-    res["shared"] = [pack(dr_event.apply_uf(sol, u, m, b, k, spec["nrb"], rf, save)) for u in ufs]
+    raw = [dr_event.apply_uf(sol, u, m, b, k, spec["nrb"], rf, save) for u in ufs]
+    res["shared"] = [pack(o) for o in raw]
     res["fresh"] = [pack(dr_event.apply_uf(sol, u, m, b, k, spec["nrb"], rf)) for u in ufs]
+    # results returned earlier are still what they were after the later calls
+    res["earlier_unchanged"] = all(np.array_equal(pack(o), p, equal_nan=True) for o, p in zip(raw, res["shared"])) and \
+        all(np.array_equal(pack(so[u]), p, equal_nan=True) for u, p in zip(ufs, res["event"]))
     pgs = [getattr(so[u], "pg", None) for u in ufs]
     _, m0, b0, k0, _, _ = uf_arrays(spec)
     res["inputs_unchanged"] = all(x is None or np.array_equal(x, y) for x, y in ((m, m0), (b, b0), (k, k0)))
     return res, pgs
+
+
+# ---------------------------------------------------------------------------------------
+# doubles as bit patterns (numeric streams run the Lean model at Float)
+
+
+def f2b(x):
+    return str(struct.unpack("<Q", struct.pack("<d", float(x)))[0])
+
+
+def b2f(s):
+    return struct.unpack("<d", struct.pack("<Q", int(s)))[0]
+
+
+def fbits(a):
+    return " ".join(f2b(v) for v in np.asarray(a, dtype=float).ravel())
+
+
+def _close(a, b, tol):
+    """|a - b| <= tol * (1 + |b|) elementwise, NaN matching NaN; returns the largest violation ratio or None"""
+    a = np.asarray(a, dtype=float)
+    b = np.asarray(b, dtype=float)
+    if a.shape != b.shape:
+        return "shape %r vs %r" % (a.shape, b.shape)
+    na, nb = np.isnan(a), np.isnan(b)
+    if not np.array_equal(na, nb):
+        return "NaN pattern differs"
+    with np.errstate(invalid="ignore"):
+        bad = np.abs(a - b) > tol * (1.0 + np.abs(b))
+    bad &= ~na
+    if bad.any():
+        return float(np.max(np.abs(a - b)[bad]))
+    return None
+
+
+# ---------------------------------------------------------------------------------------
+# apply_uf, full (2-D) stiffness: Lean model at Float
+
+
+def uf_impl_inverse(spec):
+    """what the implementation's own factorisations do to the identity: (kinvE, kinvR)"""
+    import scipy.linalg as la
+    from pyyeti.cla import dr_event
+
+    sol, m, b, k, rf, ufs = uf_arrays(spec)
+    if spec["nrb"] == spec["n"]:
+        return np.zeros((0, 0)), np.zeros((0, 0))
+    save = {}
+    dr_event.apply_uf(sol, ufs[0], m, b, k, spec["nrb"], rf, save)
+
+    def inv(lup):
+        if lup is None:
+            return np.zeros((0, 0))
+        return la.lu_solve(lup, np.eye(lup[0].shape[0]))
+
+    return inv(save["lup_elastic"]), inv(save["lup_rf"])
+
+
+def uffull_requests(spec, kinvE, kinvR):
+    """[given-re, gauss-re(, given-im, gauss-im)]"""
+    sol, m, b, k, rf, ufs = uf_arrays(spec)
+    n, nrb = spec["n"], spec["nrb"]
+    nt = sol.a.shape[1]
+    head = ["%d %d %d" % (n, nrb, nt), " ".join(str(i) for i in spec["rf"]),
+            "none" if m is None else (("vec " if m.ndim == 1 else "mat ") + fbits(m)),
+            ("vec " if b.ndim == 1 else "mat ") + fbits(b), fbits(k)]
+    ufsegs = [" ".join(f2b(x) for x in u) for u in ufs]
+    parts = [np.real, np.imag] if spec["soli"] is not None else [np.real]
+    reqs = []
+    for part in parts:
+        body = [fbits(part(sol.a)), fbits(part(sol.v)), fbits(part(sol.d))]
+        reqs.append(" ; ".join(["uffull given"] + head + [fbits(kinvE), fbits(kinvR)] + body + ufsegs))
+        reqs.append(" ; ".join(["uffull gauss"] + head + ["", ""] + body + ufsegs))
+    return reqs
+
+
+def uffull_parse(rep):
+    """-> (U, n, nt, 5) or None when the driver answered `singular`"""
+    if rep == "singular":
+        return None
+    out = []
+    for u in rep.split(" | "):
+        cols = []
+        for c in u.split(" ; "):
+            cols.append([[b2f(t) for t in g.split()] for g in c.split(" , ")])  # 5 x n
+        out.append(cols)
+    return np.transpose(np.array(out), (0, 3, 1, 2))  # (U, nt, 5, n) -> (U, n, nt, 5)
+
+
+# ---------------------------------------------------------------------------------------
+# PSD recovery: DR_Results.solvepsd / psd_data_recovery on a harness-built toy event
+
+
+class _ToyFS:
+    """stands for pyyeti.ode.SolveUnc: `fsolve` returns the unit-force response d = G * genforce (a = v = 0)"""
+
+    def __init__(self, G):
+        self.G = G
+
+    def fsolve(self, genforce, freq, **kwargs):
+        d = self.G * genforce
+        return SimpleNamespace(a=np.zeros_like(d), v=np.zeros_like(d), d=d)
+
+
+def gen_psd(rng, event="Psd"):
+    r = rng.randint(2, 6)
+    n = rng.randint(2, 4)
+    nf = rng.randint(3, 7)
+    freq = [1.0]
+    for _ in range(nf - 1):
+        freq.append(freq[-1] + rng.choice([0.5, 1.0, 2.0]))
+    labels = ["%s-%c" % (event, "ABCDEFGH"[i]) for i in range(n)]
+    rng.shuffle(labels)
+    js = list(range(n))
+    k = rng.random()
+    dup = badfreq = None
+    if k < 0.06:
+        dup = rng.randrange(1, n)
+        labels[dup] = labels[0]
+    elif k < 0.12:
+        badfreq = rng.randrange(1, n)
+    elif k < 0.45:
+        rng.shuffle(js)
+    cplx = rng.random() < 0.4
+    cases = []
+    for _ in range(n):
+        nfc = rng.randint(1, 3)
+        F = [[float(rng.randint(0, 4)) for _ in range(nf)] for _ in range(nfc)]
+        if nfc > 1 and rng.random() < 0.2:
+            F[rng.randrange(nfc)] = [0.0] * nf
+        if not any(any(row) for row in F):
+            # with every force PSD zero and allow_force_trimming the loop over the forces never runs, `_psd[case]`
+            # stays the float 0.0 and psd_data_recovery raises TypeError: outside the toy event's domain
+            F[0][rng.randrange(nf)] = 1.0
+        t = [[rng.randint(-2, 2) for _ in range(nfc)] for _ in range(r)]
+        if rng.random() < 0.1:
+            t[rng.randrange(r)] = [0] * nfc  # a row nothing excites: rms 0, apparent frequency 0/0
+        G = [[rng.randint(-3, 3) for _ in range(nf)] for _ in range(r)]
+        Gi = [[rng.randint(-3, 3) for _ in range(nf)] for _ in range(r)] if cplx else None
+        cases.append({"F": F, "t": t, "G": G, "Gi": Gi})
+    return {"kind": "psd", "event": event, "rows": r, "labels": labels, "js": js, "freq": freq, "cases": cases,
+            "pf": rng.choice([3.0, 3.0, 2.5, 1.0]), "trim": rng.random() < 0.3, "dup": dup, "badfreq": badfreq,
+            "histpv": rng.choice(["all", None, "first"])}
+
+
+def psd_resp(spec, k):
+    """unit-force responses of case k: list over forces of (rows, nf) complex arrays"""
+    c = spec["cases"][k]
+    G = np.array(c["G"], dtype=float) + (1j * np.array(c["Gi"], dtype=float) if c["Gi"] is not None else 0j)
+    t = np.array(c["t"], dtype=float)
+    return [G * t[:, [i]] for i in range(t.shape[1])]
+
+
+def build_psd(spec, order=None, force_perm=False, scale=1.0):
+    """returns (results, error kind or None); cases are solved and recovered one after the other"""
+    from pyyeti import cla
+
+    uf = (1, 1, 1, 1)
+    drdefs = cla.DR_Def(dict(se=0, uf_reds=uf, srsfrq=np.array([5.0, 10.0])))
+    kw = dict(name="cat", desc="toy category", labels=["row%d" % i for i in range(spec["rows"])], drfunc="sol.d")
+    if spec["histpv"] == "all":
+        kw["histpv"] = "all"
+    elif spec["histpv"] == "first":
+        kw["histpv"] = [0]
+    n = len(spec["labels"])
+    with warnings.catch_warnings():
+        warnings.simplefilter("ignore")
+        drdefs.add(**kw)
+        DR = cla.DR_Event()
+        DR.add(None, drdefs)
+        res = DR.prepare_results("mission", spec["event"])
+        for k in (range(n) if order is None else order):
+            c = spec["cases"][k]
+            G = np.array(c["G"], dtype=float) + (1j * np.array(c["Gi"], dtype=float) if c["Gi"] is not None else 0j)
+            F = np.array(c["F"], dtype=float) * scale
+            t = np.array(c["t"], dtype=float)
+            if force_perm:
+                F, t = F[::-1].copy(), t[:, ::-1].copy()
+            freq = np.array(spec["freq"])
+            if spec["badfreq"] == k:
+                freq = freq.copy()
+                freq[-1] += 1.0
+            try:
+                res.solvepsd({"nrb": 0}, spec["labels"][k], DR, _ToyFS(G), F, t, freq,
+                             allow_force_trimming=spec["trim"])
+                res.psd_data_recovery(spec["labels"][k], DR, n, spec["js"][k], dosrs=False, peak_factor=spec["pf"])
+            except ValueError:
+                return res, "value-error"
+    return res, None
+
+
+def psd_requests(spec, res, err):
+    """per (case, row) one `psdnum`; then `store`, `freqstore`; then, per row, `psdext` on the implementation's own peaks"""
+    reqs = []
+    f = fbits(spec["freq"])
+    n = len(spec["labels"])
+    for k in range(n):
+        R = psd_resp(spec, k)
+        F = spec["cases"][k]["F"]
+        for i in range(spec["rows"]):
+            segs = ["psdnum " + f2b(spec["pf"]), f]
+            for a, Fa in enumerate(F):
+                segs += [fbits(Fa), fbits(R[a][i].real), fbits(R[a][i].imag)]
+            reqs.append(" ; ".join(segs))
+    reqs.append("store %d ; " % n + " ; ".join("%d %s" % (j, l) for j, l in zip(spec["js"], spec["labels"])))
+    fr = []
+    for k in range(n):
+        fq = list(spec["freq"])
+        if spec["badfreq"] == k:
+            fq[-1] += 1.0
+        fr.append(" ".join(ftok(v) for v in fq))
+    reqs.append("freqstore ; " + " ; ".join(fr))
+    if not err:
+        cat = res["cat"]
+        for i in range(spec["rows"]):
+            reqs.append("psdext ; " + " ; ".join(
+                "%s %s %s" % (spec["labels"][k], ftok(cat.mx[i, spec["js"][k]]), ftok(cat.mx_x[i, spec["js"][k]]))
+                for k in range(n)))
+    return reqs
+
+
+def psd_compare(spec, res, err, replies):
+    """differences between the implementation and the model"""
+    n, r = len(spec["labels"]), spec["rows"]
+    store, fstore = replies[n * r], replies[n * r + 1]
+    model_err = store == "value-error" or fstore == "value-error"
+    if (err == "value-error") != model_err:
+        return [("refusal", err, [store, fstore])]
+    if err:
+        return []
+    diffs = []
+    cat = res["cat"]
+    if [c if isinstance(c, str) else "-" for c in cat.cases] != store.split():
+        diffs.append(("cases", list(cat.cases), store))
+    tol = 1e-12
+    for k in range(n):
+        j = spec["js"][k]
+        for i in range(r):
+            psd_s, pk_s = replies[k * r + i].split(" | ")
+            psd = [b2f(t) for t in psd_s.split()]
+            rms, pk, pkf = [b2f(t) for t in pk_s.split()]
+            for what, a, b in (("rms", cat.rms[i, j], rms), ("peak", cat.mx[i, j], pk),
+                               ("apparent frequency", cat.mx_x[i, j], pkf)):
+                bad = _close(a, b, tol)
+                if bad is not None:
+                    diffs.append(("%s row%d case%d" % (what, i, k), float(a), b))
+            if spec["histpv"] is not None and (spec["histpv"] == "all" or i == 0):
+                bad = _close(cat.psd[j][i], psd, tol)
+                if bad is not None:
+                    diffs.append(("stored psd row%d case%d" % (i, k), cat.psd[j][i].tolist(), psd))
+    if spec["histpv"] is None and hasattr(cat, "psd"):
+        diffs.append(("psd stored without histpv", True, False))
+    # compare-and-move part, exact, on the implementation's own per-case peaks
+    for i, rep in enumerate(replies[n * r + 2:]):
+        cur, per = rep.split(" | ")
+        impl_cur = "%s %s %s %s %s %s" % (ftok(cat.ext[i, 0]), ftok(cat.ext_x[i, 0]), cat.maxcase[i],
+                                          ftok(cat.ext[i, 1]), ftok(cat.ext_x[i, 1]), cat.mincase[i])
+        if impl_cur != cur:
+            diffs.append(("ext row%d" % i, impl_cur, cur))
+        per = [p.split() for p in per.split(" , ")]
+        for k in range(n):
+            j = spec["js"][k]
+            impl_p = [ftok(cat.mx[i, j]), ftok(cat.mx_x[i, j]), ftok(cat.mn[i, j]), ftok(cat.mn_x[i, j])]
+            if impl_p != per[k]:
+                diffs.append(("per-case row%d case%d" % (i, k), impl_p, per[k]))
+    return diffs
+
+
+# ---------------------------------------------------------------------------------------
+# merge / add_maxmin / calc_ext / calc_stat_ext
+
+_POOL = ["LO", "MECO", "SEP", "Gust", "Buffet", "X1", "X2"]
+
+
+def gen_merge(rng):
+    existing = rng.sample(_POOL[:5], rng.randint(0, 2))
+    inc = []
+    for _ in range(rng.randint(1, 4)):
+        kind = rng.choice(["base", "base", "ext", "join"])
+        if kind == "join":
+            nm = rng.sample(["P", "Q", "R"], 2)
+            inc.append({"kind": kind, "keys": nm, "name": ", ".join(nm)})
+        else:
+            inc.append({"kind": kind, "name": rng.choice(_POOL)})
+    rename = {}
+    if rng.random() < 0.4:
+        rename[rng.choice(inc)["name"]] = rng.choice(_POOL + ["New"])
+    return {"kind": "merge", "existing": existing, "incoming": inc, "rename": rename}
+
+
+def run_merge(spec):
+    from pyyeti import cla
+
+    def base(name):
+        d = cla.DR_Results()
+        d["cat"] = SimpleNamespace(event=name)
+        return d
+
+    def make(e):
+        if e["kind"] == "base":
+            return base(e["name"])
+        d = cla.DR_Results()
+        if e["kind"] == "ext":
+            d["sub"] = base("sub")
+            d["extreme"] = base(e["name"])
+        else:
+            for k in e["keys"]:
+                d[k] = base(k)
+        return d
+
+    top = cla.DR_Results()
+    for e in spec["existing"]:
+        top[e] = base(e)
+    try:
+        events = top.merge((make(e) for e in spec["incoming"]), spec["rename"] or None)
+    except ValueError:
+        return "value-error"
+    return {"keys": list(top.keys()), "events": list(events)}
+
+
+def _nm(s):
+    return s.replace(" ", "_")
+
+
+def merge_request(spec):
+    return "merge ; %s ; %s ; %s" % (" ".join(_nm(e) for e in spec["existing"]),
+                                     " ".join(_nm(e["name"]) for e in spec["incoming"]),
+                                     " ".join("%s %s" % (_nm(a), _nm(b)) for a, b in spec["rename"].items()))
+
+
+def gen_calc(rng):
+    r = rng.randint(1, 4)
+    n = rng.randint(1, 5)
+    style = rng.choice(["small", "pm", "half"])
+    nanp = rng.choice([0.0, 0.0, 0.2])
+    mx = [_values(rng, n, style, nanp) for _ in range(r)]
+    mn = [_values(rng, n, style, nanp) for _ in range(r)]
+    srs = None
+    if rng.random() < 0.4:
+        srs = [[_values(rng, 2, style, nanp) for _ in range(rng.randint(1, 2))] for _ in range(n)]
+        m0 = len(srs[0])
+        srs = [c[:m0] + [c[0]] * (m0 - len(c)) for c in srs]
+    return {"kind": "calc", "mx": mx, "mn": mn, "cases": ["c%d" % j for j in range(n)], "srs": srs,
+            "k": rng.choice([0.0, 1.0, 2.5, 3.0])}
+
+
+def run_calc(spec, stat=False):
+    from pyyeti import cla
+
+    R = cla.DR_Results()
+    R["cat"] = SimpleNamespace(mx=arr(spec["mx"]), mn=arr(spec["mn"]), cases=list(spec["cases"]), ext=None,
+                               ext_x="stale", maxcase=None, mincase=None)
+    if spec["srs"] is not None:
+        R["cat"].srs = SimpleNamespace(srs={10: np.array([[[NAN if v is None else v for v in row] for row in c]
+                                                          for c in spec["srs"]])}, ext={})
+    with warnings.catch_warnings():
+        warnings.simplefilter("ignore")
+        if stat:
+            R.calc_stat_ext(spec["k"])
+        else:
+            R.calc_ext()
+    return R["cat"]
+
+
+def calc_requests(spec):
+    cs = " ".join(spec["cases"])
+    reqs = ["calcext ; %s ; %s ; %s" % (" ".join(ftok_n(v) for v in a), " ".join(ftok_n(v) for v in b), cs)
+            for a, b in zip(spec["mx"], spec["mn"])]
+    if spec["srs"] is not None:
+        S = spec["srs"]
+        for a in range(len(S[0])):
+            for b in range(len(S[0][0])):
+                col = " ".join(ftok_n(S[c][a][b]) for c in range(len(S)))
+                reqs.append("calcext ; %s ; %s ; %s" % (col, col, cs))
+    return reqs
+
+
+def calc_impl_replies(spec):
+    cat = run_calc(spec)
+    out = ["%s %s %s %s" % (ftok(cat.ext[i, 0]), cat.maxcase[i], ftok(cat.ext[i, 1]), cat.mincase[i])
+           for i in range(len(spec["mx"]))]
+    if cat.ext_x is not None:
+        out[0] = "ext_x not reset"
+    if spec["srs"] is not None:
+        e = cat.srs.ext[10]
+        out += [ftok(e[a, b]) for a in range(e.shape[0]) for b in range(e.shape[1])]
+    return out
+
+
+def gen_stat(rng):
+    spec = gen_calc(rng)
+    n = rng.randint(2, 6)
+    r = len(spec["mx"])
+    spec.update(kind="stat", mx=[_values(rng, n, "half", 0.0) for _ in range(r)],
+                mn=[_values(rng, n, "half", 0.0) for _ in range(r)], cases=["c%d" % j for j in range(n)], srs=None)
+    return spec
+
+
+def gen_addmm(rng):
+    r = rng.randint(1, 3)
+    ne = rng.randint(2, 4)
+    hasx = rng.random() < 0.6
+    style = rng.choice(["small", "pm", "half"])
+    nanp = rng.choice([0.0, 0.0, 0.2])
+    evs = []
+    for e in range(ne):
+        name = "E%d" % e
+        mxmn = [_values(rng, 2, style, nanp) for _ in range(r)]
+        k = rng.random()
+        maxcase = name + "-mx" if k < 0.5 else ["%s-mx%d" % (name, i) for i in range(r)]
+        k = rng.random()
+        mincase = None if k < 0.4 else (name + "-mn" if k < 0.7 else ["%s-mn%d" % (name, i) for i in range(r)])
+        xv = [[float(rng.randint(0, 9)) for _ in range(2)] for _ in range(r)] if hasx else None
+        evs.append({"event": name, "mxmn": mxmn, "maxcase": maxcase, "mincase": mincase, "xv": xv})
+    return {"kind": "addmm", "rows": r, "events": evs, "doappend": rng.randint(0, 3)}
+
+
+def build_addmm(spec):
+    from pyyeti import cla
+
+    uf = (1, 1, 1, 1)
+    with warnings.catch_warnings():
+        warnings.simplefilter("ignore")
+        drdefs = cla.DR_Def(dict(se=0, uf_reds=uf))
+        drdefs.add(name="cat", desc="toy category", labels=["row%d" % i for i in range(spec["rows"])], drfunc="no-func")
+        DR = cla.DR_Event()
+        DR.add(None, drdefs)
+        evs = []
+        for e in spec["events"]:
+            res = DR.prepare_results("mission", e["event"])
+            res.add_maxmin("cat", arr(e["mxmn"]), copy.deepcopy(e["maxcase"]), copy.deepcopy(e["mincase"]),
+                           None if e["xv"] is None else arr(e["xv"]), "time")
+            evs.append(res)
+        top = cla.DR_Results()
+        top.merge(evs)
+        top.form_extreme("Envelope", doappend=spec["doappend"])
+        first = _level_replies(top["extreme"]["cat"], spec["rows"], [])
+        top.form_extreme("Envelope", doappend=spec["doappend"])  # stale 'extreme' entries are deleted first
+    return top, evs, first
+
+
+def addmm_requests(spec):
+    reqs = []
+    for e in spec["events"]:
+        for i in range(spec["rows"]):
+            x = e["xv"][i] if e["xv"] is not None else [None, None]
+            mn = e["mincase"]
+            reqs.append("addmm %s %s %s %s %d %s %s" % (
+                ftok_n(e["mxmn"][i][0]), ftok_n(e["mxmn"][i][1]), ftok_n(x[0]), ftok_n(x[1]),
+                1 if e["xv"] is not None else 0, e["maxcase"] if isinstance(e["maxcase"], str) else e["maxcase"][i],
+                "-" if mn is None else (mn if isinstance(mn, str) else mn[i])))
+    return reqs
+
+
+def addmm_impl_replies(spec, evs):
+    out = []
+    for res in evs:
+        c = res["cat"]
+        for i in range(spec["rows"]):
+            out.append("%s %s %s %s %s %s" % (ftok(c.ext[i, 0]), _px(c, i, 0), c.maxcase[i],
+                                              ftok(c.ext[i, 1]), _px(c, i, 1), c.mincase[i]))
+    return out
+
+
+def _px(p, i, col):
+    return "nan" if p.ext_x is None else ftok(p.ext_x[i, col])
+
+
+def permuted_event(spec, perm):
+    """the same toy event with its cases fed in another order"""
+    out = dict(spec)
+    out["labels"] = [spec["labels"][k] for k in perm]
+    out["js"] = [spec["js"][k] for k in perm]
+    if spec["kind"] == "psd":
+        out["cases"] = [spec["cases"][k] for k in perm]
+    else:
+        out["resp"] = [spec["resp"][k] for k in perm]
+    out["perm"] = list(perm)
+    return out
 
 
 # ---------------------------------------------------------------------------------------
@@ -782,6 +1348,14 @@ def correspondence(ctx):
               for row in m["resp"]]
         add("maxmin", m, rq, None)
     events = [gen_event(rng) for _ in range(ctx.pick(400, 2500))]
+    # every order of the cases (thorough: many events; quick: a few) -- the model is given the same order
+    nperm = ctx.pick(6, 120)
+    for e in list(events):
+        if nperm and len(e["labels"]) <= 4 and len(set(e["labels"])) == len(e["labels"]):
+            nperm -= 1
+            for perm in itertools.permutations(range(len(e["labels"]))):
+                if list(perm) != sorted(perm):
+                    events.append(permuted_event(e, perm))
     built = {}
     for n_ev, e in enumerate(events):
         res, DR, err = build_event(e)
@@ -802,6 +1376,14 @@ def correspondence(ctx):
             for nm, p in zip(names, parts):
                 for lower in list(p.maxcase) + list(p.mincase):
                     _LBL.setdefault((nm, lower, use_ext, f["doappend"]), None)
+    addmms = [gen_addmm(rng) for _ in range(ctx.pick(150, 1000))]
+    addbuilt = []
+    for a in addmms:
+        top, evs, first = build_addmm(a)
+        addbuilt.append((top, evs, first))
+        for e, res in zip(a["events"], evs):
+            for lower in list(res["cat"].maxcase) + list(res["cat"].mincase):
+                _LBL.setdefault((e["event"], lower, False, a["doappend"]), None)
     keys = [k for k, v in _LBL.items() if v is None]
     if keys:
         lab = drv.ask(["lbl %s %s %d %d" % (c, l, 1 if u else 0, d) for c, l, u, d in keys])
@@ -820,6 +1402,40 @@ def correspondence(ctx):
     for u in ufs:
         rq = [uf_request(u, "re")] + ([uf_request(u, "im")] if u["soli"] is not None else [])
         add("uf", u, rq, None)
+    for _ in range(ctx.pick(500, 3000)):
+        u = gen_uf(rng, full=True)
+        ke, kr = uf_impl_inverse(u)
+        add("uf-full", u, uffull_requests(u, ke, kr), (ke, kr))
+    for a, (top, evs, first) in zip(addmms, addbuilt):
+        parts = [res["cat"] for res in evs]
+        names = [e["event"] for e in a["events"]]
+        rq = addmm_requests(a) + _part_requests(parts, names, False, a["doappend"], a["rows"], [])
+        add("addmm", a, rq, addmm_impl_replies(a, evs) + first)
+        again = _level_replies(top["extreme"]["cat"], a["rows"], [])
+        if again != first or list(top.keys()).count("extreme") != 1 or list(top["extreme"]["cat"].cases) != names:
+            ctx.disagree("form-twice", a, again, first)
+    psds = [gen_psd(rng) for _ in range(ctx.pick(250, 1500))]
+    nperm = ctx.pick(4, 60)
+    for e in list(psds):
+        if nperm and len(e["labels"]) <= 3 and e["dup"] is None and e["badfreq"] is None:
+            nperm -= 1
+            for perm in itertools.permutations(range(len(e["labels"]))):
+                if list(perm) != sorted(perm):
+                    psds.append(permuted_event(e, perm))
+    psdbuilt = {}
+    for n_ev, e in enumerate(psds):
+        res, err = build_psd(e)
+        psdbuilt[n_ev] = (res, err)
+        add("psd", e, psd_requests(e, res, err), n_ev)
+    for _ in range(ctx.pick(400, 2500)):
+        m = gen_merge(rng)
+        add("merge", m, [merge_request(m)], None)
+    for _ in range(ctx.pick(400, 2500)):
+        c = gen_calc(rng)
+        add("calc-ext", c, calc_requests(c), calc_impl_replies(c))
+    for _ in range(ctx.pick(300, 2000)):
+        c = gen_stat(rng)
+        add("stat-ext", c, ["statext %s ; %s ; %s" % (f2b(c["k"]), fbits(a), fbits(b)) for a, b in zip(c["mx"], c["mn"])], None)
 
     rep = drv.ask(reqs)
     ctx.extra["driver_requests"] = len(reqs)
@@ -871,6 +1487,8 @@ def correspondence(ctx):
                 ctx.count("branch:duplicate-case-refused")
             if spec["js"] != sorted(spec["js"]):
                 ctx.count("branch:permuted-j")
+            if "perm" in spec:
+                ctx.count("branch:all-case-orders")
             if spec["histpv"] is not None and not err:
                 ctx.count("branch:history-stored")
             for what, a, b in diffs[:1]:
@@ -896,6 +1514,7 @@ def correspondence(ctx):
                 model = model + 1j * uf_parse(got[1])
             impl, pgs = uf_impl_all(spec)
             impl.pop("inputs_unchanged", None)
+            impl.pop("earlier_unchanged", None)
             nontriv = spec["nrb"] < spec["n"]
             ctx.case(spec, nontrivial=nontriv, branch="stream:uf")
             ctx.count("branch:uf-all-rigid" if not nontriv else ("branch:uf-with-rf" if spec["rf"] else "branch:uf-elastic-only"))
@@ -910,6 +1529,100 @@ def correspondence(ctx):
                     if not err <= 1e-9 * scale:
                         ctx.disagree("uf-" + disc, spec, {"uf": spec["ufs"][u], "max_abs_diff": err}, "Rat model")
                         break
+        elif stream == "uf-full":
+            impl, pgs = uf_impl_all(spec)
+            unchanged = impl.pop("inputs_unchanged", True)
+            impl.pop("earlier_unchanged", None)
+            nontriv = spec["nrb"] < spec["n"]
+            ctx.case(spec, nontrivial=nontriv, branch="stream:uf-full")
+            ctx.count("branch:uf-full-layout-" + spec["layout"])
+            ctx.count("branch:uf-full-m-" + spec["mform"])
+            ctx.count("branch:uf-full-b-" + spec["bform"])
+            if spec["rf"] and nontriv:
+                ctx.count("branch:uf-full-with-rf")
+            if spec["coupled"]:
+                ctx.count("branch:uf-full-coupled")
+            if spec["nonsym"] and nontriv:
+                ctx.count("branch:uf-full-nonsymmetric")
+            if not unchanged:
+                ctx.disagree("uf-full-inputs", spec, "the caller's m, b or k changed", "inputs are read only")
+            for tag, off in (("given", 0), ("gauss", 1)):
+                model = uffull_parse(got[off])
+                if model is not None and spec["soli"] is not None:
+                    im = uffull_parse(got[off + 2])
+                    model = None if im is None else model + 1j * im
+                if model is None:
+                    ctx.disagree("uf-full-" + tag, spec, "a solution", "singular partition")
+                    continue
+                scale = 1.0 + float(np.max(np.abs(model))) if model.size else 1.0
+                done = False
+                for disc, outs in impl.items():
+                    for u, o in enumerate(outs):
+                        err = float(np.max(np.abs(o - model[u]))) if o.size else 0.0
+                        if not err <= 1e-9 * scale:
+                            ctx.disagree("uf-full-%s-%s" % (tag, disc), spec, {"uf": spec["ufs"][u], "max_abs_diff": err},
+                                         "Float model, inverse %s" % ("as the implementation factorised it" if tag == "given"
+                                                                      else "by Gauss-Jordan in the driver"))
+                            done = True
+                            break
+                    if done:
+                        break
+        elif stream == "addmm":
+            ctx.case(spec, nontrivial=True, branch="stream:addmm")
+            if spec["events"][0]["xv"] is None:
+                ctx.count("branch:addmm-no-abscissa")
+            if got != payload:
+                bad = next(j for j in range(cnt) if got[j] != payload[j])
+                ctx.disagree("addmm", spec, {"reply": bad, "impl": payload[bad]}, {"reply": bad, "model": got[bad]})
+        elif stream == "psd":
+            res, err = psdbuilt[payload]
+            diffs = psd_compare(spec, res, err, got)
+            ctx.case(spec, nontrivial=not err, branch="stream:psd")
+            if "perm" in spec:
+                ctx.count("branch:psd-all-case-orders")
+            if err:
+                ctx.count("branch:psd-freq-mismatch-refused" if spec["badfreq"] is not None else "branch:psd-duplicate-refused")
+            if any(len(c["F"]) > 1 for c in spec["cases"]):
+                ctx.count("branch:psd-multi-force")
+            if spec["trim"] and any(not any(row) for c in spec["cases"] for row in c["F"]):
+                ctx.count("branch:psd-zero-force-trimmed")
+            if spec["cases"][0]["Gi"] is not None:
+                ctx.count("branch:psd-complex")
+            if spec["js"] != sorted(spec["js"]):
+                ctx.count("branch:psd-permuted-j")
+            for what, a, b in diffs[:1]:
+                ctx.disagree("psd", spec, {"what": what, "impl": a}, {"what": what, "model": b})
+        elif stream == "merge":
+            out = run_merge(spec)
+            ctx.case(spec, nontrivial=True, branch="stream:merge")
+            if got[0] == "value-error":
+                ctx.count("branch:merge-duplicate-refused")
+            if spec["rename"]:
+                ctx.count("branch:merge-rename")
+            if out == "value-error" or got[0] == "value-error":
+                if out != got[0]:
+                    ctx.disagree("merge", spec, out, got[0])
+            else:
+                keys = got[0].split()
+                if [_nm(k) for k in out["keys"]] != keys or \
+                        [_nm(k) for k in out["events"]] != keys[len(spec["existing"]):]:
+                    ctx.disagree("merge", spec, out, got[0])
+        elif stream == "calc-ext":
+            ctx.case(spec, nontrivial=len(spec["cases"]) > 1, branch="stream:calc-ext")
+            if any(v is None for row in spec["mx"] + spec["mn"] for v in row):
+                ctx.count("branch:calc-ext-nan")
+            got = got[:len(spec["mx"])] + [g.split()[0] for g in got[len(spec["mx"]):]]  # spectra: value only
+            if got != payload:
+                bad = next(j for j in range(cnt) if got[j] != payload[j])
+                ctx.disagree("calc-ext", spec, {"reply": bad, "impl": payload[bad]}, {"reply": bad, "model": got[bad]})
+        elif stream == "stat-ext":
+            cat = run_calc(spec, stat=True)
+            ctx.case(spec, nontrivial=True, branch="stream:stat-ext")
+            model = np.array([[b2f(t) for t in g.split()] for g in got])
+            bad = _close(cat.ext, model, 1e-12)
+            if bad is not None or cat.ext_x is not None or list(cat.maxcase) != ["Statistical"] * len(got) \
+                    or list(cat.mincase) != ["Statistical"] * len(got):
+                ctx.disagree("stat-ext", spec, cat.ext.tolist(), model.tolist())
     ctx.exhaustive = False
     ctx.require_branches([
         "stream:ext1", "stream:ext2", "stream:maxmin", "stream:time", "stream:frf", "stream:srs-env",
@@ -918,6 +1631,14 @@ def correspondence(ctx):
         "branch:duplicate-case-refused", "branch:permuted-j", "branch:history-stored", "branch:doappend-0",
         "branch:doappend-1", "branch:doappend-2", "branch:doappend-3", "branch:case-order",
         "branch:uf-all-rigid", "branch:uf-with-rf", "branch:uf-elastic-only", "branch:uf-m-none", "branch:uf-complex",
+        "stream:uf-full", "branch:uf-full-layout-C", "branch:uf-full-layout-F", "branch:uf-full-m-none",
+        "branch:uf-full-m-vec", "branch:uf-full-m-mat", "branch:uf-full-b-vec", "branch:uf-full-b-mat",
+        "branch:uf-full-with-rf", "branch:uf-full-coupled", "branch:uf-full-nonsymmetric",
+        "stream:addmm", "branch:addmm-no-abscissa", "stream:psd", "branch:psd-all-case-orders",
+        "branch:psd-freq-mismatch-refused", "branch:psd-duplicate-refused", "branch:psd-multi-force",
+        "branch:psd-zero-force-trimmed", "branch:psd-complex", "branch:psd-permuted-j", "stream:merge",
+        "branch:merge-duplicate-refused", "branch:merge-rename", "stream:calc-ext", "branch:calc-ext-nan",
+        "stream:stat-ext", "branch:all-case-orders",
     ])
 
 
@@ -938,6 +1659,42 @@ def _fmin(vals):
 
 def _same(a, b):
     return (a != a and b != b) or a == b
+
+
+def jsonable_small(v):
+    if isinstance(v, np.ndarray):
+        return v.tolist()
+    if isinstance(v, dict):
+        return {str(k): jsonable_small(x) for k, x in v.items()}
+    return v
+
+
+def _snapshot(cat):
+    """deep copy of everything a results category holds that the property speaks about"""
+    out = {}
+    for nm in ("ext", "ext_x", "mx", "mn", "mx_x", "mn_x", "maxcase", "mincase", "cases", "hist", "frf", "psd", "rms"):
+        if hasattr(cat, nm):
+            out[nm] = copy.deepcopy(getattr(cat, nm))
+    if hasattr(cat, "srs"):
+        out["srs.ext"] = copy.deepcopy(cat.srs.ext)
+        out["srs.srs"] = copy.deepcopy(cat.srs.srs)
+    return out
+
+
+def _snap_diff(before, cat):
+    """name of the first member of `cat` that is no longer what the snapshot recorded, or None"""
+    now = _snapshot(cat)
+    for nm, v in before.items():
+        w = now.get(nm)
+        if isinstance(v, np.ndarray):
+            if not isinstance(w, np.ndarray) or v.shape != w.shape or not np.array_equal(v, w, equal_nan=True):
+                return nm
+        elif isinstance(v, dict):
+            if set(v) != set(w) or any(not np.array_equal(v[q], w[q], equal_nan=True) for q in v):
+                return nm
+        elif v != w:
+            return nm
+    return None
 
 
 def oracle_hist(h):
@@ -991,6 +1748,17 @@ def oracle_hist(h):
                                   h, gx, [xs[k] for k in attain]))
             elif ext_x is not None:
                 fails.append(("extrema-abscissa-invented", "ext_x appeared although no case supplied one", h, "array", None))
+    # what was handed in is still what it was (no aliasing between the accumulator and its inputs)
+    for n_in, (c, mm, mxc, mnc) in enumerate(cur.inputs):
+        if not np.array_equal(mm.ext, arr(c["ext"]), equal_nan=True) or \
+                (c["ext_x"] is not None and not np.array_equal(mm.ext_x, arr(c["ext_x"]), equal_nan=True)) or \
+                mxc != c["maxcase"] or mnc != c["mincase"]:
+            fails.append(("extrema-%d-column-input-modified-by-later-call" % cols,
+                          "the mm / labels handed in at call %d are no longer what they were after the later calls "
+                          "(the accumulator aliases its input)" % n_in, h,
+                          [mm.ext.tolist(), None if mm.ext_x is None else mm.ext_x.tolist(), mxc, mnc],
+                          [c["ext"], c["ext_x"], c["maxcase"], c["mincase"]]))
+            break
     # per-case columns
     if calls[0]["casenum"] is not None:
         for c in calls:
@@ -1112,6 +1880,13 @@ def oracle_event(spec):
             if not np.array_equal(env, cat.srs.ext[q], equal_nan=True):
                 fails.append(("dr-%s-srs-envelope" % dom, "srs.ext[%s] is not the maximum over the cases" % q, spec,
                               cat.srs.ext[q].tolist(), env.tolist()))
+    # calc_ext recomputes the same extreme values from the per-case columns
+    if not fails:
+        rc = copy.deepcopy(res)
+        rc.calc_ext()
+        if not np.array_equal(rc["cat"].ext, cat.ext, equal_nan=True):
+            fails.append(("dr-%s-calc-ext-differs" % dom, "calc_ext over the per-case columns gives other extreme values", spec,
+                          rc["cat"].ext.tolist(), cat.ext.tolist()))
     # order independence of values
     if not fails:
         order = list(range(n))[::-1]
@@ -1128,6 +1903,30 @@ def oracle_event(spec):
 def oracle_form(spec):
     fails = []
     top, evs = build_form(spec)
+    before = list(_SNAPS)
+    shape = "nested" if spec["groups"] is not None else "flat"
+    # the parts handed into merge / form_extreme are afterwards bit-identical to what they were
+    for i, (snap, res) in enumerate(zip(before, evs)):
+        bad = _snap_diff(snap, res["cat"])
+        if bad is not None:
+            fails.append(("form-extreme-%s-modifies-part-%s" % (shape, bad.replace(".", "-")),
+                          "after form_extreme, `%s` of event %s (a part of the envelope) is no longer what its own recovery "
+                          "left there" % (bad, spec["events"][i]["event"]), spec,
+                          jsonable_small(getattr(res["cat"], bad, None)), jsonable_small(snap.get(bad))))
+            break
+    # a sub-group's own envelope is what forming that group alone gives (later groups must not touch it)
+    if not fails and spec["groups"] is not None:
+        for g, members in enumerate(spec["groups"]):
+            sub = {"kind": "form", "events": [spec["events"][i] for i in members], "groups": None,
+                   "doappend": spec["doappend"], "case_order": None}
+            alone, _ = build_form(sub)
+            a, b = alone["extreme"]["cat"], top["G%d" % g]["extreme"]["cat"]
+            bad = _snap_diff(_snapshot(a), b)
+            if bad is not None:
+                fails.append(("form-extreme-nested-group-envelope-%s" % bad.replace(".", "-"),
+                              "`%s` of the envelope of group %d differs from the envelope of the same events formed alone" % (bad, g),
+                              spec, jsonable_small(getattr(b, bad, None)), jsonable_small(getattr(a, bad, None))))
+                break
     used = list(range(len(evs)))
     if spec["groups"] is None and spec["case_order"] is not None:
         used = spec["case_order"]
@@ -1135,7 +1934,6 @@ def oracle_form(spec):
     parts = [evs[i]["cat"] for i in used]
     allmx = np.fmax.reduce([p.ext[:, 0] for p in parts])
     allmn = np.fmin.reduce([p.ext[:, 1] for p in parts])
-    shape = "nested" if spec["groups"] is not None else "flat"
     if not (np.array_equal(ext.ext[:, 0], allmx, equal_nan=True) and np.array_equal(ext.ext[:, 1], allmn, equal_nan=True)):
         fails.append(("form-extreme-%s-not-envelope" % shape, "top-level extreme is not the envelope of the events", spec,
                       ext.ext.tolist(), [allmx.tolist(), allmn.tolist()]))
@@ -1176,6 +1974,19 @@ def oracle_form(spec):
             env = np.fmax.reduce([p.srs.ext[q] for p in parts])
             if not np.array_equal(ext.srs.ext[q], env, equal_nan=True):
                 fails.append(("form-extreme-%s-srs-envelope" % shape, "Q=%s" % q, spec, ext.srs.ext[q].tolist(), env.tolist()))
+    # forming the extreme again (stale 'extreme' entries at all levels) changes nothing
+    if not fails:
+        keep = (ext.ext.copy(), list(ext.maxcase), list(ext.mincase), list(ext.cases))
+        co = None
+        if spec["groups"] is None and spec["case_order"] is not None:
+            co = [spec["events"][i]["event"] for i in spec["case_order"]]
+        with warnings.catch_warnings():
+            warnings.simplefilter("ignore")
+            top.form_extreme("Envelope", case_order=co, doappend=spec["doappend"])
+        e2 = top["extreme"]["cat"]
+        if not np.array_equal(e2.ext, keep[0], equal_nan=True) or (list(e2.maxcase), list(e2.mincase), list(e2.cases)) != keep[1:]:
+            fails.append(("form-extreme-not-idempotent", "forming the extreme twice changes the result (stale 'extreme' entries)",
+                          spec, [e2.ext.tolist(), list(e2.cases)], [keep[0].tolist(), keep[3]]))
     # envelope of parts regardless of grouping / order: compare with the other shape
     if not fails and spec["case_order"] is None:
         ne = len(evs)
@@ -1187,6 +1998,31 @@ def oracle_form(spec):
             fails.append(("form-extreme-grouping-dependent-values", "values change with grouping / order of the events", spec,
                           top2["extreme"]["cat"].ext.tolist(), ext.ext.tolist()))
     return fails
+
+
+def _uf_expected(sol, M, B, K, n, nrb, rfi, uf):
+    """the documented result of apply_uf, straight from the formulas in its docstring: (n, nt, 5) = a, v, d, d_static, d_dynamic"""
+    ruf, euf, duf, suf = uf
+    el = [i for i in range(nrb, n) if i not in rfi]
+    a = sol.a.astype(complex).copy()
+    v = sol.v.astype(complex).copy()
+    ds = np.zeros_like(a)
+    dd = np.zeros_like(a)
+    a[:nrb] *= ruf * suf
+    v[:nrb] *= ruf * suf
+    a[rfi] = 0
+    v[rfi] = 0
+    a[el] *= euf * duf
+    v[el] *= euf * duf
+    if el:
+        ee = np.ix_(el, el)
+        av = M[ee] @ sol.a[el] + B[ee] @ sol.v[el]
+        F = av + K[ee] @ sol.d[el]
+        ds[el] = euf * suf * np.linalg.solve(K[ee], F)
+        dd[el] = -euf * duf * np.linalg.solve(K[ee], av)
+    if rfi:
+        ds[rfi] = euf * suf * sol.d[rfi]
+    return np.stack([a, v, ds + dd, ds, dd], axis=-1)
 
 
 def oracle_uf(spec):
@@ -1205,6 +2041,9 @@ def oracle_uf(spec):
     for nm in ("a", "v", "d"):
         if not np.array_equal(getattr(sol, nm), getattr(keep, nm)):
             fails.append(("apply-uf-mutates-input", "sol.%s changed" % nm, spec, None, None))
+    if not impl.pop("earlier_unchanged"):
+        fails.append(("apply-uf-earlier-result-changed", "a solution returned by an earlier apply_uf call changed when later calls "
+                      "were made", spec, None, None))
     if not impl.pop("inputs_unchanged"):
         fails.append(("apply-uf-mutates-input", "the caller's m, b or k changed during apply_uf (%s-ordered matrices): "
                       "later calls see different modal data" % spec.get("layout", "C"), spec, None, None))
@@ -1213,25 +2052,7 @@ def oracle_uf(spec):
     K = np.diag(k) if k.ndim == 1 else k
     kindtag = ("-full" if spec["full"] else "-diag") + ("-rf" if rfi else "") + ("-rb" if nrb else "")
     for u, (ruf, euf, duf, suf) in enumerate(ufs):
-        a = sol.a.astype(complex).copy()
-        v = sol.v.astype(complex).copy()
-        ds = np.zeros_like(a)
-        dd = np.zeros_like(a)
-        a[:nrb] *= ruf * suf
-        v[:nrb] *= ruf * suf
-        a[rfi] = 0
-        v[rfi] = 0
-        a[el] *= euf * duf
-        v[el] *= euf * duf
-        if el:
-            ee = np.ix_(el, el)
-            av = M[ee] @ sol.a[el] + B[ee] @ sol.v[el]
-            F = av + K[ee] @ sol.d[el]
-            ds[el] = euf * suf * np.linalg.solve(K[ee], F)
-            dd[el] = -euf * duf * np.linalg.solve(K[ee], av)
-        if rfi:
-            ds[rfi] = euf * suf * sol.d[rfi]
-        want = np.stack([a, v, ds + dd, ds, dd], axis=-1)
+        want = _uf_expected(sol, M, B, K, n, nrb, rfi, ufs[u])
         scale = 1.0 + float(np.max(np.abs(want))) if want.size else 1.0
         tol = (1e-9 if not spec["full"] else 1e-8) * scale
         for disc in ("event", "shared", "fresh"):
@@ -1257,6 +2078,26 @@ def oracle_uf(spec):
                 fails.append(("apply-uf-pg", "pg is not scaled by suf", spec, None, None))
         if fails:
             break
+    # a history of DR_Event.apply_uf calls on the SAME event object and solution with other partitions: nothing computed
+    # for one partition may leak into the next call (each call owns a fresh `save`)
+    if not fails and rfi and nrb < n and not spec.get("coupled"):
+        from pyyeti import cla
+
+        DR = cla.DR_Event()
+        DR.UF_reds = list(ufs)
+        pack = lambda o: np.stack([o.a, o.v, o.d, o.d_static, o.d_dynamic], axis=-1)
+        for rfm, rl in ((rf, rfi), (None, []), (rf, rfi)):
+            so = DR.apply_uf(sol, m, b, k, nrb, rfm)
+            for u in range(len(ufs)):
+                want = _uf_expected(sol, M, B, K, n, nrb, rl, ufs[u])
+                sc = 1.0 + float(np.max(np.abs(want)))
+                if not float(np.max(np.abs(pack(so[ufs[u]]) - want))) <= 1e-8 * sc:
+                    fails.append(("apply-uf-stale-partition" + kindtag, "DR_Event.apply_uf called again on the same solution with "
+                                  "rfmodes=%r returns values that do not follow the documented formula for that partition" % (rl,),
+                                  spec, pack(so[ufs[u]]).tolist(), want.tolist()))
+                    break
+            if fails:
+                break
     # cache transparency over another call order sharing one dict
     if not fails and len(ufs) > 1:
         save = {}
@@ -1270,8 +2111,173 @@ def oracle_uf(spec):
     return fails
 
 
+def oracle_psd(spec):
+    fails = []
+    res, err = build_psd(spec)
+    dup = len(set(spec["labels"])) != len(spec["labels"])
+    bad = spec["badfreq"] is not None
+    if (err is not None) != (dup or bad):
+        what = "duplicate case label" if dup else ("frequency vector differing from the first case's" if bad else "valid event")
+        return [("psd-%s-%s" % ("duplicate-case" if dup else ("freq-mismatch" if bad else "refusal"),
+                                "accepted" if (dup or bad) else "spurious"),
+                 "solvepsd / psd_data_recovery must refuse a %s and accept valid events" % what, spec, err,
+                 "value-error" if (dup or bad) else None)]
+    if err:
+        return []
+    cat = res["cat"]
+    n, r = len(spec["labels"]), spec["rows"]
+    f = np.array(spec["freq"])
+    pf = spec["pf"]
+    rt = 1e-11
+    PK = np.zeros((r, n))
+    for k in range(n):
+        j = spec["js"][k]
+        R = psd_resp(spec, k)
+        F = np.array(spec["cases"][k]["F"])
+        psd = sum(F[i][None, :] * (R[i].real ** 2 + R[i].imag ** 2) for i in range(len(R)))
+        ms = np.trapezoid(psd, f, axis=1)
+        rms = np.sqrt(ms)
+        vms = np.trapezoid(f ** 2 * psd, f, axis=1)
+        with np.errstate(invalid="ignore", divide="ignore"):
+            af = np.sqrt(vms) / rms
+        PK[:, k] = pf * rms
+        if spec["histpv"] is not None:
+            pv = slice(None) if spec["histpv"] == "all" else [0]
+            if _close(cat.psd[j], psd[pv], rt) is not None:
+                fam = "psd-accumulation-%s" % ("multi-force" if len(R) > 1 else "single-force")
+                fails.append((fam, "case %d: the stored response PSD is not the sum over the forces of forcepsd_i*|H_i|^2" % k,
+                              spec, cat.psd[j].tolist(), psd[pv].tolist()))
+                break
+        if _close(cat.rms[:, j], rms, rt) is not None:
+            fam = "psd-rms-not-sqrt-trapezoid" + ("" if len(R) == 1 else "-multi-force")
+            fails.append((fam, "case %d: rms is not the square root of the trapezoid area under the response PSD" % k,
+                          spec, cat.rms[:, j].tolist(), rms.tolist()))
+            break
+        if _close(cat.mx[:, j], pf * rms, rt) is not None:
+            fails.append(("psd-peak-factor", "case %d: per-case maximum is not peak_factor * rms" % k, spec,
+                          cat.mx[:, j].tolist(), (pf * rms).tolist()))
+            break
+        if not np.array_equal(cat.mn[:, j], -cat.mx[:, j]) or not np.array_equal(cat.mn_x[:, j], cat.mx_x[:, j], equal_nan=True):
+            fails.append(("psd-min-not-negated-max", "case %d: per-case minimum / its abscissa is not the mirrored maximum" % k,
+                          spec, [cat.mn[:, j].tolist(), cat.mn_x[:, j].tolist()], [(-cat.mx[:, j]).tolist(), cat.mx_x[:, j].tolist()]))
+            break
+        if _close(cat.mx_x[:, j], af, rt) is not None:
+            fails.append(("psd-apparent-frequency", "case %d: abscissa is not vrms/rms" % k, spec, cat.mx_x[:, j].tolist(), af.tolist()))
+            break
+    if not fails:
+        for i in range(r):
+            own = [float(cat.mx[i, spec["js"][k]]) for k in range(n)]
+            want = _fmax(own)
+            got = float(cat.ext[i, 0])
+            if not _same(got, want) or not _same(float(cat.ext[i, 1]), -want):
+                fails.append(("psd-extreme-not-max-over-cases", "row %d: ext %r, per-case peaks %r" % (i, cat.ext[i].tolist(), own),
+                              spec, cat.ext[i].tolist(), [want, -want]))
+                continue
+            for col, labs in ((0, cat.maxcase), (1, cat.mincase)):
+                att = [spec["labels"][k] for k in range(n) if _same(own[k], want)]
+                if labs[i] not in att:
+                    fails.append(("psd-label-not-attaining", "row %d col %d: label %r" % (i, col, labs[i]), spec, labs[i], att))
+                else:
+                    k = spec["labels"].index(labs[i])
+                    if not _same(float(cat.ext_x[i, col]), float(cat.mx_x[i, spec["js"][k]])):
+                        fails.append(("psd-abscissa-not-attaining", "row %d col %d" % (i, col), spec,
+                                      float(cat.ext_x[i, col]), float(cat.mx_x[i, spec["js"][k]])))
+        want_cases = [None] * n
+        for k in range(n):
+            want_cases[spec["js"][k]] = spec["labels"][k]
+        if list(cat.cases) != want_cases:
+            fails.append(("psd-cases-order", "cases list", spec, list(cat.cases), want_cases))
+    if not fails:
+        res2, err2 = build_psd(spec, force_perm=True)
+        if err2 or _close(res2["cat"].rms, cat.rms, rt) is not None:
+            fails.append(("psd-force-order-dependent", "rms changes when the forces are given in reverse order", spec,
+                          None if err2 else res2["cat"].rms.tolist(), cat.rms.tolist()))
+        res3, err3 = build_psd(spec, scale=4.0)
+        if err3 or _close(res3["cat"].rms, 2.0 * cat.rms, rt) is not None:
+            fails.append(("psd-not-linear-in-force-psd", "4 x force PSD does not give 2 x rms", spec,
+                          None if err3 else res3["cat"].rms.tolist(), (2.0 * cat.rms).tolist()))
+        res4, err4 = build_psd(spec, order=list(range(n))[::-1])
+        if err4 or not np.array_equal(res4["cat"].ext, cat.ext, equal_nan=True):
+            fails.append(("psd-order-dependent-values", "extreme values change when the cases are run in reverse order", spec,
+                          None if err4 else res4["cat"].ext.tolist(), cat.ext.tolist()))
+    return fails
+
+
+def oracle_merge(spec):
+    out = run_merge(spec)
+    names = [spec["rename"].get(e["name"], e["name"]) for e in spec["incoming"]]
+    allk = spec["existing"] + names
+    dup = len(set(allk)) != len(allk)
+    if dup != (out == "value-error"):
+        return [("merge-duplicate-event-%s" % ("accepted" if dup else "refusal-spurious"),
+                 "merge must refuse an event name that already exists and accept distinct ones", spec, out,
+                 "value-error" if dup else allk)]
+    if not dup and (out["keys"] != allk or out["events"] != names):
+        return [("merge-keys-order", "keys after merge are not the old keys followed by the new events in order", spec, out, allk)]
+    return []
+
+
+def oracle_calc(spec):
+    fails = []
+    if spec["kind"] == "stat":
+        cat = run_calc(spec, stat=True)
+        mx, mn = arr(spec["mx"]), arr(spec["mn"])
+        want = np.column_stack((mx.mean(axis=1) + spec["k"] * mx.std(ddof=1, axis=1),
+                                mn.mean(axis=1) - spec["k"] * mn.std(ddof=1, axis=1)))
+        if _close(cat.ext, want, 1e-11) is not None or cat.ext_x is not None or set(cat.maxcase + cat.mincase) != {"Statistical"}:
+            fails.append(("calc-stat-ext", "ext is not mean +/- k*sigma over the per-case columns", spec, cat.ext.tolist(), want.tolist()))
+        return fails
+    cat = run_calc(spec)
+    for i, (a, b) in enumerate(zip(spec["mx"], spec["mn"])):
+        for col, vals, pick, labs in ((0, a, max, cat.maxcase), (1, b, min, cat.mincase)):
+            v = [NAN if x is None else x for x in vals]
+            want = NAN if any(x != x for x in v) else pick(v)
+            got = float(cat.ext[i, col])
+            if not _same(got, want):
+                fails.append(("calc-ext-wrong-" + ("max" if col == 0 else "min"), "row %d" % i, spec, got, want))
+            elif labs[i] not in [spec["cases"][k] for k in range(len(v)) if _same(v[k], want)]:
+                fails.append(("calc-ext-label-not-attaining", "row %d col %d label %r" % (i, col, labs[i]), spec, labs[i], v))
+    if cat.ext_x is not None:
+        fails.append(("calc-ext-stale-abscissa", "ext_x must be reset to None", spec, cat.ext_x, None))
+    if spec["srs"] is not None:
+        S = np.array([[[NAN if v is None else v for v in row] for row in c] for c in spec["srs"]])
+        if not np.array_equal(cat.srs.ext[10], S.max(axis=0), equal_nan=True):
+            fails.append(("calc-ext-srs-envelope", "srs.ext is not the maximum over the cases", spec, cat.srs.ext[10].tolist(),
+                          S.max(axis=0).tolist()))
+    return fails
+
+
+def oracle_addmm(spec):
+    fails = []
+    top, evs, first = build_addmm(spec)
+    r = spec["rows"]
+    for e, res in zip(spec["events"], evs):
+        c = res["cat"]  # looked at AFTER the envelope was formed (twice): the part must still hold what was added
+        want = arr(e["mxmn"])
+        mxc = [e["maxcase"]] * r if isinstance(e["maxcase"], str) else list(e["maxcase"])
+        mnc = mxc if e["mincase"] is None else ([e["mincase"]] * r if isinstance(e["mincase"], str) else list(e["mincase"]))
+        if not np.array_equal(c.ext, want, equal_nan=True) or list(c.maxcase) != mxc or list(c.mincase) != mnc or \
+                (e["xv"] is None) != (c.ext_x is None) or (e["xv"] is not None and not np.array_equal(c.ext_x, arr(e["xv"]))):
+            fails.append(("add-maxmin-table", "event %s: the category does not hold what was added" % e["event"], spec,
+                          [c.ext.tolist(), c.maxcase, c.mincase], [want.tolist(), mxc, mnc]))
+    ext = top["extreme"]["cat"]
+    parts = [res["cat"] for res in evs]
+    allmx = np.fmax.reduce([p.ext[:, 0] for p in parts])
+    allmn = np.fmin.reduce([p.ext[:, 1] for p in parts])
+    if not (np.array_equal(ext.ext[:, 0], allmx, equal_nan=True) and np.array_equal(ext.ext[:, 1], allmn, equal_nan=True)):
+        fails.append(("form-extreme-addmm-not-envelope", "extreme over add_maxmin events is not their envelope", spec,
+                      ext.ext.tolist(), [allmx.tolist(), allmn.tolist()]))
+    if (ext.ext_x is None) != (spec["events"][0]["xv"] is None):
+        fails.append(("form-extreme-addmm-abscissa-presence", "ext_x presence", spec, ext.ext_x is None, spec["events"][0]["xv"] is None))
+    if _level_replies(ext, r, []) != first or list(ext.cases) != [e["event"] for e in spec["events"]]:
+        fails.append(("form-extreme-not-idempotent", "forming the extreme twice (stale 'extreme' present) changes the result", spec,
+                      list(ext.cases), [e["event"] for e in spec["events"]]))
+    return fails
+
+
 _ORACLES = {"ext1": oracle_hist, "ext2": oracle_hist, "mm": oracle_mm, "event": oracle_event,
-            "form": oracle_form, "uf": oracle_uf}
+            "form": oracle_form, "uf": oracle_uf, "psd": oracle_psd, "merge": oracle_merge, "calc": oracle_calc,
+            "stat": oracle_calc, "addmm": oracle_addmm}
 
 
 def _run_oracle(ctx, spec):
@@ -1306,6 +2312,14 @@ def search(ctx, hints):
     for _ in range(ctx.pick(400, 3000)):
         _run_oracle(ctx, gen_uf(rng))
         _run_oracle(ctx, gen_uf(rng, full=True))
+    for _ in range(ctx.pick(120, 800)):
+        _run_oracle(ctx, gen_psd(rng))
+    for _ in range(ctx.pick(200, 1500)):
+        _run_oracle(ctx, gen_merge(rng))
+        _run_oracle(ctx, gen_calc(rng))
+        _run_oracle(ctx, gen_stat(rng))
+    for _ in range(ctx.pick(100, 600)):
+        _run_oracle(ctx, gen_addmm(rng))
 
 
 def replay(ctx, data):
